@@ -32,6 +32,11 @@ Cases:
   Round 4: a column entry of a df / dfseq / sess collect is an int, a name, or {"v": V} for any other object (float, bool, Decimal, bytes, None, numpy scalar,
   int subclass ...).  New value tags: ["dec",text] Decimal | ["frac",n,d] Fraction | ["npf",dtype,hex] / ["npi",dtype,n] / ["npb",bool] numpy scalars
   | ["isub",n] int subclass | ["cx",re,im] complex | ["D",[[k,v]..]] OrderedDict | ["DD",[[k,v]..]] defaultdict(int) | ["AS",dtype,shape,[v..]] ndarray subclass.
+  {"k":"md","rows":V,"names":[..],"limit":n?,"maxw":n?}   DataFrame(rows, names).markdown(limit, max_column_width): the column widths the plain-Python
+        renderer used (read off its separator line) and, beside it, calculate_data_width on the same head columns
+  Round 5: every argument object the harness hands over (request lists, schema lists, appended entries, dicts, field tuples, rows of pydef) is
+  snapshotted and compared afterwards ("args_changed"); a collect / getitem OP may carry "req": id - all OPs of a case with the same id pass the
+  SAME Python list object (same cols by construction), also across frames of a session.
   A collect / getitem OP may carry "scribble": true - after the result was recorded the harness overwrites the returned array in place.
 Observation: {"ok": ...} | {"exc": class name} | {"died": wait status, "reproduced": bool}."""
 import itertools
@@ -59,7 +64,9 @@ LEVEL_TEXT = ("Machine-checked Coq theorems over an executable model of collect_
               "modelled as a heap of objects with a proved locality theorem (what an object returns depends only on its own definition and the actions addressed to it; an "
               "ordinary row class and DataFrame.append turn a dict into the value-or-None of the object's own fields in order). The plain-Python definition orso.row.extract_columns "
               "is modelled as written (per-request output lists filled row by row, Python subscription with wrap-around, KeyError / TypeError paths) and proved to be the "
-              "column-major definition with one list per requested column, equal to the compiled collector's model on rectangular rows with in-range indexes. The model is tied "
+              "column-major definition with one list per requested column, equal to the compiled collector's model on rectangular rows with in-range indexes. The markdown "
+              "renderer's plain-Python column width (max over the non-null rendered lengths with 4 appended, head rows, header, cap) is modelled as written and proved equal "
+              "to calculate_data_width's running maximum. The model is tied "
               "to the shipped compiled .so by running the real helpers (and the callers DataFrame.collect / the display width call) in sacrificial processes on the "
               "exhaustive small scope and on random larger inputs and evaluating the model on the same inputs inside Coq; a literal property oracle and the observed "
               "exit status of every child supply replayable failing inputs.")
@@ -73,9 +80,9 @@ LEVEL_NOTE = ("Memory safety of the compiled object is observed (child exit stat
 DESIGN_REF = "DESIGN.md section 8, C10"
 COQ_IMPORTS = "From Orso Require Import Model.C10."
 COQ_CHECKS = {"collect": "c10_collect_check", "df": "c10_df_check", "extract": "c10_extract_check", "width": "c10_width_check",
-              "dfseq": "c10_dfseq_check", "sess": "c10_sess_check", "pydef": "c10_pydef_check"}
+              "dfseq": "c10_dfseq_check", "sess": "c10_sess_check", "pydef": "c10_pydef_check", "md": "c10_md_check"}
 COQ_SHOW = {"collect": "c10_collect_show", "df": "c10_df_show", "extract": "c10_extract_show", "width": "c10_width_show",
-            "dfseq": "c10_dfseq_show", "sess": "c10_sess_show", "pydef": "c10_pydef_show"}
+            "dfseq": "c10_dfseq_show", "sess": "c10_sess_show", "pydef": "c10_pydef_show", "md": "c10_md_show"}
 RULE = ("collect_cython: exhaustive over rectangular row lists up to 3x3 (distinct cell labels) x index vectors of length 0..3 over -2..width+1 x limits -2..rows+2 "
         "(quick: up to 2x2 in full, 3x3 with vectors of length <= 2), then random larger shapes with repeated indexes, all three column-count paths, mixed cell types, "
         "ragged and non-tuple rows, DataFrame.collect with names/ints/limits, sequences of calls on ONE DataFrame whose rows arrive in a list / tuple / deque / generator / iterator "
@@ -86,7 +93,9 @@ RULE = ("collect_cython: exhaustive over rectangular row lists up to 3x3 (distin
         "definition extract_columns beside the compiled collector (every index vector of length 0..3 over -4..3 on 2x3 tuple rows, every ordered pair of equal-but-distinct / "
         "non-position / unhashable requested columns on tuple and dictionary rows, random dict / ragged / None rows), DataFrame.collect with column entries that are not "
         "an int and not a name (floats, numpy scalars, Decimal, Fraction, bytes, None, bool, int subclass; enumerated), frames without columns, dict / tuple / ndarray subclass "
-        "instances, arbitrary dictionaries and field tuples (colliding keys 1/1.0/True, unhashable fields), "
+        "instances, DataFrame.markdown column widths beside calculate_data_width (every ordered pair of None / falsy / floor-of-four / array cells under a short and a long "
+        "header, limits x caps; enumerated), request-list objects reused across calls and across frames, every argument object snapshotted and compared after the case, "
+        "arbitrary dictionaries and field tuples (colliding keys 1/1.0/True, unhashable fields), "
         "object/str/numeric/2-D arrays for calculate_data_width (incl. through DataFrame.collect as display.py calls it), and malformed arguments; a case is non-trivial "
         "when the helper returned at least one cell / field / a width above the floor, or raised for an out-of-range index; distinct by canonical JSON")
 TRUSTED = [
@@ -99,6 +108,8 @@ TRUSTED = [
     "numpy.array(indexes, dtype=int32) and the C-int conversion of limit raise OverflowError outside their ranges",
     "extract_columns model (Section PyDef): Python subscription of tuples / lists (ints and bools, wrap-around of negative positions), dicts (hashable keys up to Python "
     "equality, interned by the harness) and None; which objects count as a sequence position (__index__) or are hashable is decided by the harness",
+    "markdown width model: display.py:433-444 (head slice, max(lengths + [4]) over non-None cells, min(max(header, .), cap)); the widths are read off the separator line of "
+    "the rendered text; that a call leaves its argument objects unchanged is observed by the harness (value snapshots) and judged by the oracle, not a model operation",
     "modelled, not verified: the generated C and CPython object layout; str() of cell values and dict key hashing/equality are supplied by the harness; argument conversion "
     "(memoryview dtype/ndim test, C int conversion of limit) is checked by oracle and exit status only",
     "the sacrificial-process harness: a death of the child is observed as its wait status; silent memory corruption that neither changes a result nor kills the child is invisible",
@@ -238,6 +249,34 @@ def _cells(r):
     return {"ok": {"shape": list(r.shape), "cells": [[canon(x) for x in col] for col in r]}}
 
 
+_WATCH = []   # (label, object, frozen value when first handed over): compared when the case is over
+
+
+def _freeze(x):
+    """A value snapshot of an argument object (never an address)."""
+    import collections
+
+    try:
+        import numpy
+
+        if isinstance(x, numpy.ndarray):
+            return ["ndarray", str(x.dtype), list(x.shape), [_freeze(v) for v in x.ravel().tolist()]]
+    except ImportError:
+        pass
+    if isinstance(x, dict):
+        return [type(x).__name__, [[_freeze(k), _freeze(v)] for k, v in x.items()]]
+    if isinstance(x, (list, tuple, collections.deque)):
+        return [type(x).__name__, [_freeze(v) for v in x]]
+    return canon(x)
+
+
+def _watch(label, obj):
+    if isinstance(obj, (list, dict, tuple)) or type(obj).__name__ == "ndarray":
+        if not any(w[1] is obj for w in _WATCH):
+            _WATCH.append((label, obj, _freeze(obj)))
+    return obj
+
+
 def _col_obj(c):
     """A column entry of a collect request as the Python object handed to DataFrame.collect."""
     return build(c["v"]) if isinstance(c, dict) else c
@@ -275,13 +314,19 @@ def _make_backing(kind, rows):
     raise KeyError(kind)
 
 
-def _run_step(df, names, op):
+def _run_step(df, names, op, reqs=None):
     """One call of a dfseq case on the live DataFrame; the step's own observation."""
     o = op["op"]
     try:
         if o in ("collect", "getitem"):
             cols = op["cols"]
-            arg = _cols_arg(cols)
+            if reqs is not None and "req" in op:
+                if op["req"] not in reqs:
+                    reqs[op["req"]] = _cols_arg(cols)
+                arg = reqs[op["req"]]       # the very object an earlier call was given
+            else:
+                arg = _cols_arg(cols)
+            _watch("the column request %r passed to %s" % (_cols_arg(cols), o), arg)
             if o == "collect":
                 kw = {"limit": build(op["limit"])} if "limit" in op else {}
                 r = df.collect(arg, **kw)
@@ -299,7 +344,7 @@ def _run_step(df, names, op):
             r = df.materialize()
             return {"none": True} if r is None else {"value": type(r).__name__}
         elif o == "append":
-            r = df.append(build(op["entry"]))
+            r = df.append(_watch("the entry passed to append", build(op["entry"])))
             return {"none": True} if r is None else {"value": type(r).__name__}
         else:
             raise KeyError(o)
@@ -328,6 +373,26 @@ def _run_step(df, names, op):
 
 
 def _run_case(case):
+    """The case, then: did any argument object the caller still holds change its value?"""
+    if case["k"] == "seq":
+        return _run_case_inner(case)
+    del _WATCH[:]
+    out = _run_case_inner(case)
+    changed = []
+    for label, obj, before in _WATCH:
+        try:
+            after = _freeze(obj)
+        except BaseException as e:
+            after = "unreadable: " + type(e).__name__
+        if after != before:
+            changed.append({"what": label, "before": before, "after": after})
+    del _WATCH[:]
+    if changed and isinstance(out, dict) and "returned_without_raising" not in out:
+        out = dict(out, args_changed=changed)
+    return out
+
+
+def _run_case_inner(case):
     """Phase 1: the call itself (a Python exception here is the helper's own).  Phase 2: only if the call returned and
     performed no unchecked read, the result is inspected."""
     import numpy
@@ -355,13 +420,13 @@ def _run_case(case):
             from orso.dataframe import DataFrame
 
             rows = build(case["rows"])
-            df = DataFrame(rows=rows, schema=list(case["names"]))
+            df = DataFrame(rows=rows, schema=_watch("the schema list", list(case["names"])))
             _LEAK.append((rows, df))
             cols = case["cols"]
             kw = {}
             if "limit" in case:
                 kw["limit"] = build(case["limit"])
-            r = df.collect(_cols_arg(cols), **kw)
+            r = df.collect(_watch("the column request passed to collect", _cols_arg(cols)), **kw)
             _LEAK.append(r)
             names = list(case["names"])
             idx = [kd[1] for kd in (_col_kind(c, names) for c in (cols if isinstance(cols, list) else [cols])) if kd[0] != "unknown"]
@@ -373,11 +438,12 @@ def _run_case(case):
             rows = build(case["rows"])
             src = _make_backing(case["backing"], rows)
             names = list(case["names"])
-            df = DataFrame(rows=src, schema=list(names))
+            df = DataFrame(rows=src, schema=_watch("the schema list", list(names)))
             _LEAK.append((rows, src, df))
             steps = []
+            reqs = {}
             for i, op in enumerate(case["ops"]):
-                st = _run_step(df, names, op)
+                st = _run_step(df, names, op, reqs)
                 if "returned_without_raising" in st:
                     return dict(st, step=i)
                 if "inspect_exc" in st:
@@ -387,10 +453,31 @@ def _run_case(case):
             if case["backing"] in ("list", "tuple", "deque"):  # what the caller's own container holds afterwards
                 source = [[canon(x) for x in row] if isinstance(row, tuple) else canon(row) for row in src]
             return {"ok": {"steps": steps, "source": source}}
+        elif k == "md":
+            from orso.dataframe import DataFrame
+
+            rows = build(case["rows"])
+            names = list(case["names"])
+            df = DataFrame(rows=rows, schema=_watch("the schema list", list(names)))
+            _LEAK.append((rows, df))
+            kw = {}
+            if "limit" in case:
+                kw["limit"] = case["limit"]
+            if "maxw" in case:
+                kw["max_column_width"] = case["maxw"]
+            lim = case.get("limit", 5)
+            t = df.slice(length=lim) if lim > 0 else df           # the head the renderers size their columns on
+            native = [int(compiled.calculate_data_width(t.collect(i))) for i in range(len(names))]   # display.py:347, the compiled twin
+            text = df.markdown(**kw)
+            seps = [ln for ln in text.split("\n") if ln.startswith("|-") and set(ln) <= {"|", "-"}]
+            if not seps:
+                return {"ok": {"widths": None, "native": native, "text": text[:300]}}
+            cells = seps[0].split("|")[2:-1]
+            return {"ok": {"widths": [len(c) - 2 for c in cells] if names else [], "native": native}}
         elif k == "pydef":
             from orso.row import extract_columns
 
-            rows, cols = build(case["rows"]), build(case["cols"])
+            rows, cols = _watch("the rows", build(case["rows"])), _watch("the requested columns", build(case["cols"]))
             native = None
             if _pydef_native_ok(case):   # rectangular tuple rows, int32-representable ints: the compiled call is bounds-checked
                 try:
@@ -412,10 +499,11 @@ def _run_case(case):
 
             objs = []
             steps = []
+            reqs = {}
             for i, op in enumerate(case["ops"]):
                 if op.get("new") == "class":
                     try:
-                        objs.append(("class", Row.create_class(list(op["fields"]), tuples_only=bool(op["tuples_only"])), None))
+                        objs.append(("class", Row.create_class(_watch("the field list", list(op["fields"])), tuples_only=bool(op["tuples_only"])), None))
                         steps.append({"none": True})
                     except BaseException as e:
                         objs.append(("broken", None, None))
@@ -424,7 +512,7 @@ def _run_case(case):
                     try:
                         rows = build(op["rows"])
                         src = _make_backing(op["backing"], rows)
-                        df = DataFrame(rows=src, schema=list(op["names"]))
+                        df = DataFrame(rows=src, schema=_watch("the schema list", list(op["names"])))
                         _LEAK.append((rows, src, df))
                         objs.append(("frame", df, list(op["names"])))
                         steps.append({"none": True})
@@ -434,7 +522,7 @@ def _run_case(case):
                 elif "make" in op:
                     kind, cls, _ = objs[op["on"]]
                     try:
-                        row = cls(build(op["make"]))
+                        row = cls(_watch("the data handed to the row class", build(op["make"])))
                         _LEAK.append(row)
                         if not isinstance(row, tuple):
                             steps.append({"value": type(row).__name__})
@@ -444,7 +532,7 @@ def _run_case(case):
                         steps.append({"exc": type(e).__name__})
                 else:
                     kind, df, names = objs[op["on"]]
-                    st = _run_step(df, names, op["op"])
+                    st = _run_step(df, names, op["op"], reqs)
                     if "returned_without_raising" in st:
                         return dict(st, step=i)
                     if "inspect_exc" in st:
@@ -452,7 +540,7 @@ def _run_case(case):
                     steps.append(st)
             return {"ok": {"steps": steps}}
         elif k == "extract":
-            r = compiled.extract_dict_columns(build(case["data"]), build(case["fields"]))
+            r = compiled.extract_dict_columns(_watch("the dictionary", build(case["data"])), _watch("the field tuple", build(case["fields"])))
         elif k == "width":
             r = compiled.calculate_data_width(build(case["arr"]))
         elif k == "width_df":
@@ -741,6 +829,9 @@ def _mode(case):
         return "iso"
     if k == "pydef":
         return "safe"
+    if k == "md":
+        rows = case["rows"]
+        return "safe" if rows[0] == "l" and all(_row_kind(r) == ("tuple", len(case["names"])) for r in rows[1]) else "iso"
     if k == "extract":
         return "safe" if case["data"][0] == "d" and case["fields"][0] == "t" else "iso"
     if k == "width":
@@ -907,6 +998,10 @@ def oracle(case, obs):
             return ("no input may terminate the interpreter: the shared worker died with status %s while serving this call; the call alone does not "
                     "reproduce it, so one of the %s earlier calls in that worker corrupted memory (shrinking replays the sequence)" % (obs["died"], obs.get("shared_worker_calls_before", "?")))
         return "no input may terminate the interpreter: the sacrificial child died with status %s" % obs["died"]
+    if "args_changed" in obs:
+        ch = obs["args_changed"][0]
+        return ("a call must leave the argument objects the caller still holds as they were (the caller may use them again, on another frame): %s was %s and is now %s"
+                % (ch["what"], json.dumps(ch["before"])[:300], json.dumps(ch["after"])[:300]))
     if "returned_without_raising" in obs and case["k"] == "df" and _collect_view(case) is not None and any(not INT_MIN <= c <= INT_MAX for c in _collect_view(case)[1]):
         far = [c for c in _collect_view(case)[1] if not INT_MIN <= c <= INT_MAX]
         return ("a column index outside 0..width-1 must raise a Python exception however far outside it is: index %s cannot even be held by an int32 index vector, "
@@ -946,6 +1041,8 @@ def oracle(case, obs):
         return _oracle_sess(case, obs)
     if k == "pydef":
         return _oracle_pydef(case, obs)
+    if k == "md":
+        return _oracle_md(case, obs)
     if k == "extract":
         data, fields = build(case["data"]), build(case["fields"])
         try:
@@ -1054,6 +1151,30 @@ def _op_text(op):
     if o == "append":
         return "append(%r)" % (build(op["entry"]),)
     return {"rowcount": "rowcount", "len": "len(df)", "shape": "shape", "materialize": "materialize()"}.get(o, o)
+
+
+def _oracle_md(case, obs):
+    """The markdown renderer sizes a column like the compiled helper: the longest rendered non-null value of the rows it shows, at least
+    four - None is the only value skipped (False, 0, 0.0, '', Decimal('0.000'), [] count) - then at least the header, at most max_column_width."""
+    rows, names = build(case["rows"]), list(case["names"])
+    lim, maxw = case.get("limit", 5), case.get("maxw", 30)
+    head = rows[:lim] if lim > 0 else rows
+    try:
+        dw = [max([len(str(r[i])) for r in head if r[i] is not None] + [4]) for i in range(len(names))]
+    except Exception:
+        return None if "exc" in obs else None
+    want = [min(max(len(n), d), maxw) for n, d in zip(names, dw)]
+    if "exc" in obs:
+        return "DataFrame.markdown raised %s on a well-formed frame; column widths %s expected" % (obs["exc"], want)
+    got = obs["ok"]
+    if got["native"] != dw:
+        return "calculate_data_width on the head columns: expected %s, got %s" % (dw, got["native"])
+    if got["widths"] is None:
+        return "no separator line in the markdown output: %r" % got.get("text")
+    if got["widths"] != want:
+        return ("markdown must size column i as min(max(len(name), longest rendered non-null value of the %d rows shown, 4), %d) - what calculate_data_width gives (%s): "
+                "expected %s, got %s" % (len(head), maxw, dw, want, got["widths"]))
+    return None
 
 
 def _pydef_native_ok(case):
@@ -1307,6 +1428,18 @@ def to_coq(case, obs):
         return _to_coq_sess(case, obs)
     if k == "pydef":
         return _to_coq_pydef(case, obs)
+    if k == "md":
+        if "ok" not in obs or obs["ok"]["widths"] is None or case["rows"][0] != "l":
+            return None
+        rows, names = build(case["rows"]), list(case["names"])
+        if not all(isinstance(r, tuple) and len(r) == len(names) for r in rows):
+            return None
+        cols = []
+        for i, n in enumerate(names):
+            items = ["None" if r[i] is None else "(Some %s)" % L.text(str(r[i])) for r in rows]
+            cols.append("(%s, (%s : list (option (list N))))" % (L.Z(len(n)), L.lst(items)))
+        return ("md", "((%s : list (Z * list (option (list N)))), %s, %s, (%s : list Z), (%s : list Z))"
+                % (L.lst(cols), L.Z(case.get("limit", 5)), L.Z(case.get("maxw", 30)), L.lst(L.Z(x) for x in obs["ok"]["widths"]), L.lst(L.Z(x) for x in obs["ok"]["native"])))
     if k == "extract":
         if "ok" not in obs or case["fields"][0] not in ("t", "T") or case["data"][0] not in ("d", "n", "D", "DD"):
             return None
@@ -1546,6 +1679,8 @@ def nontrivial_key(case, obs):
             return json.dumps(case, sort_keys=True)
         if k == "width_df" and any(x > 4 for x in o["value"]):
             return json.dumps(case, sort_keys=True)
+        if k == "md" and o.get("widths"):
+            return json.dumps(case, sort_keys=True)
         if k == "pydef" and any(o["cells"]):
             return json.dumps(case, sort_keys=True)
         if k in ("dfseq", "sess") and any(any(st.get("cells") or []) or st.get("row") for st in o["steps"]):
@@ -1609,10 +1744,19 @@ def classify(case, obs):
             lazy = lazy and op["op"] == "append"
         if "append" in ops:
             yield "has-append"
+        rq = [op["req"] for op in case["ops"] if "req" in op]
+        if len(set(rq)) < len(rq):
+            yield "request-list-object-reused"
         if "ok" in obs:
             for st in obs["ok"]["steps"]:
                 if "exc" in st:
                     yield "step-exc:" + st["exc"]
+    elif k == "md":
+        yield "columns=%d" % len(case["names"])
+        if "limit" in case:
+            yield "md-limit:" + ("<=0" if case["limit"] <= 0 else "pos")
+        if "maxw" in case:
+            yield "md-cap"
     elif k == "pydef":
         cols = case["cols"][1] if case["cols"][0] in ("l", "t") else []
         txt = [json.dumps(c, sort_keys=True) for c in cols]
@@ -1641,6 +1785,9 @@ def classify(case, obs):
             flags.setdefault(tuple(str(f) for f in (op.get("fields") or op.get("names"))), set()).add(bool(op.get("tuples_only", False)))
         if any(len(v) == 2 for v in flags.values()):
             yield "same-fields-tuples-only-and-ordinary"
+        rq = [(op["op"]["req"], op["on"]) for op in case["ops"] if "op" in op and "req" in op["op"]]
+        if any(a[0] == b[0] and a[1] != b[1] for a in rq for b in rq):
+            yield "request-list-object-reused-across-frames"
         if any("make" in op and op["make"][0] == "d" for op in case["ops"]):
             yield "class-made-row-from-dict"
         if any("op" in op and op["op"]["op"] == "append" and op["op"]["entry"][0] == "d" for op in case["ops"]):
@@ -1809,6 +1956,38 @@ def _rand_pydef(rng):
     return {"k": "pydef", "rows": ["l", rows], "cols": ["l", cols]}
 
 
+# cell values for the width paths: None, falsy-but-not-None values of every kind, values at the floor of four, an array cell
+_MD_VALUES = [["n"], ["b", False], ["b", True], ["i", 0], ["f", (0.0).hex()], ["f", (-0.0).hex()], ["s", ""], ["s", "abcd"], ["s", "abcde"],
+              ["dec", "0.000"], ["dec", "0"], ["l", []], ["i", 12345], ["A", "int64", [3], [["i", 1], ["i", 2], ["i", 3]]]]
+
+
+def _exhaustive_md():
+    """DataFrame.markdown on one-column frames of two rows: every ordered pair of cell values from the pool (None, False, True, 0, 0.0, -0.0, '', 'abcd',
+    'abcde', Decimal('0.000'), Decimal('0'), [], 12345, a NumPy array) under a short and a long header; a 3 x 2 frame under limits -1, 0, 1, 2, 5 x caps 3, 4, 5, 30."""
+    for name in ("ab", "abcdef"):
+        for x in _MD_VALUES:
+            for y in _MD_VALUES:
+                yield {"k": "md", "rows": ["l", [["t", [x]], ["t", [y]]]], "names": [name]}
+    rows = ["l", [["t", [["b", False], ["s", "x"]]], ["t", [["n"], ["s", "a much longer text value"]]], ["t", [["dec", "0.000"], ["n"]]]]]
+    for lim in (-1, 0, 1, 2, 5):
+        for maxw in (3, 4, 5, 30):
+            yield {"k": "md", "rows": rows, "names": ["ok", "remark"], "limit": lim, "maxw": maxw}
+    yield {"k": "md", "rows": ["l", []], "names": ["a", "bcdefg"]}
+    yield {"k": "md", "rows": ["l", [["t", []], ["t", []]]], "names": []}
+
+
+def _rand_md(rng):
+    r, w = rng.choice([0, 1, 2, 3, 6, 12]), rng.choice([1, 2, 3, 4])
+    names = [rng.choice(["a", "ok", "id", "name", "value", "a|b", "\u00e9t\u00e9", "a_rather_long_column_name_of_35_chars"]) + str(i) for i in range(w)]
+    rows = [["t", [rng.choice(_MD_VALUES) if rng.random() < 0.6 else _rand_value(rng) for _ in range(w)]] for _ in range(r)]
+    case = {"k": "md", "rows": ["l", rows], "names": names}
+    if rng.random() < 0.6:
+        case["limit"] = rng.choice([-1, 0, 1, 2, 5, r, r + 1])
+    if rng.random() < 0.4:
+        case["maxw"] = rng.choice([3, 4, 5, 8, 30, 100])
+    return case
+
+
 _SESS_NAMES = {"ab": ["a", "b"], "ba": ["b", "a"]}
 
 
@@ -1830,8 +2009,8 @@ def _sess_probe(i, new):
                 {"on": i, "make": ["t", [["i", b + 7], ["i", b + 8]]]}]
     return [{"on": i, "op": {"op": "append", "entry": ["d", [[["s", "b"], ["i", b + 21]], [["s", "zz"], ["i", 0]]]]}},
             {"on": i, "op": {"op": "append", "entry": ["t", [["i", b + 31], ["i", b + 32]]]}},
-            {"on": i, "op": {"op": "collect", "cols": ["a", "b"], "scribble": True}},
-            {"on": i, "op": {"op": "getitem", "cols": ["b", "a"]}},
+            {"on": i, "op": {"op": "collect", "cols": ["a", "b"], "scribble": True, "req": 0}},   # the same two list objects serve every frame
+            {"on": i, "op": {"op": "getitem", "cols": ["b", "a"], "req": 1}},
             {"on": i, "op": {"op": "rowcount"}}]
 
 
@@ -1860,6 +2039,8 @@ def exhaustive(tier):
             yield c
         for c in _exhaustive_pydef(tier):
             yield c
+        for c in _exhaustive_md():
+            yield c
         for c in _exhaustive_sess(tier):
             yield c
         for r in range(0, 4):
@@ -1887,6 +2068,9 @@ def exhaustive(tier):
     label += ("; the plain-Python definition extract_columns: tuple rows 2x3 x every index vector of length 0..3 over -4..3 (0 and 1 rows: length 0..2), and every ordered "
               "pair of requested columns from 0 / False / 0.0 / -0.0 / 1 / True / 1.0 / Decimal(1) / numpy.int64(1) / int subclass / '1' / 'a' / None / a list / -1 / 2 on tuple "
               "rows and on dictionary rows, with the compiled collector called beside it where it accepts the input")
+    label += ("; the second width path: DataFrame.markdown on one-column frames with every ordered pair of cells from None / False / True / 0 / 0.0 / -0.0 / '' / 'abcd' / "
+              "'abcde' / Decimal('0.000') / Decimal('0') / [] / 12345 / a NumPy array under a 2- and a 6-character header, and limits -1, 0, 1, 2, 5 x caps 3, 4, 5, 30, with "
+              "calculate_data_width called on the same head columns")
     label += ("; sessions: every sequence of 2..%d creations from {tuples-only row class (a,b), ordinary row class (a,b), ordinary row class (b,a), list-backed frame (a,b), "
               "tuple-backed frame (a,b), list-backed frame (b,a)} followed by probe actions on every object (dicts reordered / with a foreign key / with a missing field, a tuple; for frames "
               "append(dict), append(tuple), collect with the returned array overwritten, df[...], rowcount) in creation order and in reverse order" % (4 if tier == "thorough" else 3))
@@ -2005,9 +2189,15 @@ def _rand_df(rng):
     return case
 
 
-def _rand_fop(rng, r, w, names, pos):
-    """One random call on a frame of (initially) r rows x w columns."""
+def _rand_fop(rng, r, w, names, pos, reqs=None):
+    """One random call on a frame of (initially) r rows x w columns.  [reqs]: request lists the caller already used in this case
+    ((id, cols) pairs) - now and then one of them is used again (the same object), possibly on another frame."""
     q = rng.random()
+    if reqs is not None and q < 0.45 and rng.random() < 0.3:
+        usable = [(i, c) for i, c in reqs if all(isinstance(x, int) or isinstance(x, str) for x in c)]
+        if usable:
+            i, c = rng.choice(usable)
+            return {"op": rng.choice(["collect", "getitem"]), "cols": list(c), "req": i}
     if q < 0.45:
         style = rng.random()
         if style < 0.25:
@@ -2029,6 +2219,9 @@ def _rand_fop(rng, r, w, names, pos):
                                       ["i", r + 1], ["i", r + 5], ["i", INT_MAX], ["i", rng.choice(_BIG_LIMITS)]])
         if rng.random() < 0.3:
             op["scribble"] = True
+        if reqs is not None and isinstance(cols, list) and cols:
+            op["req"] = len(reqs)
+            reqs.append((len(reqs), list(cols)))
         return op
     if q < 0.6:
         c = rng.randrange(w)
@@ -2049,7 +2242,8 @@ def _rand_dfseq(rng):
     w = rng.choice([1, 2, 3, 4])
     names = ["c%d" % i for i in range(w)]
     rows = _rand_rows(rng, r, w, distinct=rng.random() < 0.6)
-    ops = [_rand_fop(rng, r, w, names, pos) for pos in range(rng.randint(1, 6))]
+    reqs = []
+    ops = [_rand_fop(rng, r, w, names, pos, reqs) for pos in range(rng.randint(1, 6))]
     return {"k": "dfseq", "backing": rng.choice(_BACKINGS), "rows": ["l", rows], "names": names, "ops": ops}
 
 
@@ -2064,7 +2258,7 @@ def _rand_dict(rng, pos):
 
 def _rand_sess(rng):
     """2..4 row classes / frames over a pool of three field names (so names collide across objects), 3..10 actions interleaved."""
-    ops, objs = [], []
+    ops, objs, reqs = [], [], []
     total = rng.randint(4, 12)
     for pos in range(total):
         if not objs or (len(objs) < 4 and rng.random() < 0.3):
@@ -2094,7 +2288,7 @@ def _rand_sess(rng):
             if rng.random() < 0.25:
                 ops.append({"on": i, "op": {"op": "append", "entry": _rand_dict(rng, pos)}})
             else:
-                ops.append({"on": i, "op": _rand_fop(rng, len(o["rows"][1]), w, o["names"], pos)})
+                ops.append({"on": i, "op": _rand_fop(rng, len(o["rows"][1]), w, o["names"], pos, reqs)})
     return {"k": "sess", "ops": ops}
 
 
@@ -2224,6 +2418,8 @@ def generate(rng, tier):
             yield _rand_sess(rng)
         if i % 4 == 1:  # ... and the plain-Python definition beside the compiled collector
             yield _rand_pydef(rng)
+        if i % 8 == 3:  # ... and the markdown renderer's widths beside calculate_data_width
+            yield _rand_md(rng)
 
 
 def corpus():
@@ -2244,6 +2440,11 @@ def corpus():
                "ops": [{"op": "collect", "cols": ["b", 0], "limit": ["i", 1]}, {"op": "collect", "cols": ["b", 0]}, {"op": "getitem", "cols": "a"}, {"op": "rowcount"}]}
     yield {"k": "dfseq", "backing": "tuple", "rows": ["l", [t12, t34]], "names": ["a", "b"],      # append refused while lazy, accepted once a list
            "ops": [{"op": "append", "entry": ["t", [["i", 7], ["i", 8]]]}, {"op": "len"}, {"op": "append", "entry": ["l", [["i", 9], ["i", 10]]]}, {"op": "getitem", "cols": ["b"]}]}
+    yield {"k": "md", "rows": ["l", [["t", [["i", 1], ["b", False]]], ["t", [["i", 2], ["n"]]]]], "names": ["id", "ok"]}       # the widest non-null value is falsy
+    yield {"k": "sess", "ops": [{"new": "frame", "backing": "list", "rows": ["l", [t12]], "names": ["a", "b"]},            # one request list, two frames laid out differently
+                                {"new": "frame", "backing": "list", "rows": ["l", [t34]], "names": ["b", "a"]},
+                                {"on": 0, "op": {"op": "collect", "cols": ["b", "a"], "req": 0}},
+                                {"on": 1, "op": {"op": "collect", "cols": ["b", "a"], "req": 0}}]}
     yield {"k": "pydef", "rows": ["l", [t12, t34]], "cols": ["l", [["i", 0], ["i", 0]]]}                                # a column requested twice
     yield {"k": "pydef", "rows": ["l", [t12, t34]], "cols": ["l", [["i", 1], ["b", True]]]}                             # equal-but-distinct requests
     yield {"k": "pydef", "rows": ["l", [["d", [[["s", "id"], ["i", 1]], [["s", "name"], ["s", "x"]]]]]], "cols": ["l", [["s", "id"], ["s", "name"], ["s", "id"]]]}
@@ -2271,8 +2472,10 @@ def search(rng):
     i = 0
     while True:
         i += 1
-        m = i % 9
-        if m == 8:
+        m = i % 10
+        if m == 9:
+            yield _rand_md(rng)
+        elif m == 8:
             yield _rand_pydef(rng)
         elif m == 7:
             yield _rand_sess(rng)
@@ -2312,6 +2515,19 @@ def shrink(case):
                             yield {"k": "seq", "cases": cs[:i] + cs[i + step:]}
         elif n == 1:
             yield cs[0]
+        return
+    if k == "md" and case["rows"][0] == "l":
+        rows, names = case["rows"][1], case["names"]
+        for i in range(len(rows)):
+            yield dict(case, rows=["l", rows[:i] + rows[i + 1:]])
+        for j in range(len(names)):
+            if len(names) > 1:
+                yield dict(case, names=names[:j] + names[j + 1:], rows=["l", [[r[0], r[1][:j] + r[1][j + 1:]] for r in rows]])
+        for key in ("limit", "maxw"):
+            if key in case:
+                c = dict(case)
+                del c[key]
+                yield c
         return
     if k == "pydef" and case["rows"][0] in ("l", "t") and case["cols"][0] in ("l", "t"):
         rows, cols = case["rows"], case["cols"]
@@ -2375,7 +2591,9 @@ def shrink(case):
                 yield dict(case, ops=ops[:i] + [o2] + ops[i + 1:])
             if op["op"] in ("collect", "getitem") and isinstance(op["cols"], list) and len(op["cols"]) > 1:
                 for j in range(len(op["cols"])):
-                    yield dict(case, ops=ops[:i] + [dict(op, cols=op["cols"][:j] + op["cols"][j + 1:])] + ops[i + 1:])
+                    o3 = dict(op, cols=op["cols"][:j] + op["cols"][j + 1:])
+                    o3.pop("req", None)   # no longer the same request as the other calls with this id
+                    yield dict(case, ops=ops[:i] + [o3] + ops[i + 1:])
         if case["backing"] != "list":
             yield dict(case, backing="list")
         return
